@@ -18,7 +18,9 @@ SETTINGS = [  # (OMP_NUM_THREADS, OMP_SCHEDULE, OMP_DYNAMIC)
     ("1", "static", "false"), ("2", "static", "false"), ("3", "dynamic,1", "false"), ("5", "static", "false"),
     ("16", "static", "false"), ("16", "static", "false"), ("64", "static", "false"), ("8", "dynamic,1", "true"),
 ]
-RULE = ("case = (protein fragment of 12 residues with hydrogens or a water box fragment, 12-40 frames built from 8 conformations + noise, "
+RULE = ("case = (protein fragment of 12 residues with hydrogens or a water box fragment, 12-40 frames built from 8 conformations + noise "
+        "(one case in four: 300 / 520 / 700 frames, every atom wrapped into its frame's cell, single frames taken around multiples of 128 / "
+        "256 / 512, four OpenMP settings), "
         "triclinic per-frame varying cell, a frame permutation, index lists); each of 8 OpenMP settings (threads 1,2,3,5,16,16 again,64, "
         "8 with dynamic scheduling / dynamic adjustment) runs in its own process and evaluates ~25 per-frame functions on the whole "
         "trajectory, on every frame alone and on the permuted trajectory; oracle: all settings bit-identical, and "
@@ -35,9 +37,14 @@ NUMPY_ONLY = {"rg", "gyration", "moments", "com", "cog", "inertia", "density"}
 
 @st.composite
 def strategy(draw, tier="quick"):
-    return {"system": draw(st.sampled_from(["protein", "protein", "water"])), "nf": draw(st.integers(12, 20 if tier == "quick" else 40)),
+    case = {"system": draw(st.sampled_from(["protein", "protein", "water"])), "nf": draw(st.integers(12, 20 if tier == "quick" else 40)),
             "seed": draw(st.integers(0, 2 ** 31)), "noise": draw(st.sampled_from([0.0, 0.005, 0.03])),
             "cell": draw(st.sampled_from(["tric-vary", "ortho", "none"]))}
+    if draw(st.integers(0, 3)) == 0:
+        # a long trajectory: more frames than any internal block / chunk size is likely to be (256, 512), per-frame varying cell,
+        # molecules wrapped atom by atom; single frames are taken around the block boundaries
+        case.update(long=True, nf=draw(st.sampled_from([300, 520, 700])), cell=draw(st.sampled_from(["tric-vary", "ortho"])))
+    return case
 
 
 def build(case):
@@ -57,15 +64,24 @@ def build(case):
     frames = []
     for f in range(nf):
         x = base.xyz[f % base.n_frames].astype(np.float64)
-        x = x + rng.normal(0, case["noise"] + 1e-4 * f, x.shape)
+        x = x + rng.normal(0, case["noise"] + 1e-4 * (f % 97 if case.get("long") else f), x.shape)
         frames.append(x)
     xyz = np.array(frames).astype(np.float32)
     xyz = xyz - xyz.mean(axis=(0, 1)) + 2.5
     t = md.Trajectory(xyz, base.topology, time=np.arange(nf) * 1.0)
     if case["cell"] != "none":
-        L = np.array([[5.0 + 0.02 * f, 5.5, 6.0 + 0.01 * f] for f in range(nf)], dtype=np.float32)
-        A = np.array([[90.0, 90.0, 90.0] if case["cell"] == "ortho" else [75.0 + 0.1 * f, 85.0, 100.0] for f in range(nf)], dtype=np.float32)
+        g = (lambda f: f % 97) if case.get("long") else (lambda f: f)
+        L = np.array([[5.0 + 0.02 * g(f), 5.5, 6.0 + 0.01 * g(f)] for f in range(nf)], dtype=np.float32)
+        A = np.array([[90.0, 90.0, 90.0] if case["cell"] == "ortho" else [75.0 + 0.1 * g(f), 85.0, 100.0] for f in range(nf)], dtype=np.float32)
         t.unitcell_lengths, t.unitcell_angles = L, A
+        if case.get("long"):
+            # every atom wrapped into its frame's cell on its own: bonds, angles and torsions cross the periodic boundary
+            H = t.unitcell_vectors.astype(np.float64)
+            x = t.xyz.astype(np.float64) - 2.5          # centred on the cell corner, so that it straddles three faces
+            for f in range(nf):
+                fr = x[f] @ np.linalg.inv(H[f])
+                x[f] = (fr - np.floor(fr)) @ H[f]
+            t.xyz = x.astype(np.float32)
     return t
 
 
@@ -128,17 +144,25 @@ def worker(case_path, out_path):
         tp = t[perm]
         out = {}
         fns = _functions(t)
+        alone_frames = list(range(nf))
+        if case.get("long"):
+            alone_frames = sorted({f for f in (0, 1, 127, 128, 255, 256, 257, 299, 511, 512, 513, nf - 2, nf - 1) if 0 <= f < nf})
+            for slow in ("sasa-residue", "neighborlist", "wernet_nilsson", "dssp-simplified"):
+                fns.pop(slow, None)
+
+        def alone(fn):
+            return [fn(t[f])[0] if f in alone_frames else None for f in range(nf)]
 
         def record(name, variant, per_frame):
             if name in NUMPY_ONLY:
-                out["%s/%s" % (name, variant)] = [np.asarray(v, dtype=np.float64).ravel().tolist() for v in per_frame]
+                out["%s/%s" % (name, variant)] = [None if v is None else np.asarray(v, dtype=np.float64).ravel().tolist() for v in per_frame]
             else:
-                out["%s/%s" % (name, variant)] = [_digest(v) for v in per_frame]
+                out["%s/%s" % (name, variant)] = [None if v is None else _digest(v) for v in per_frame]
         for name, fn in fns.items():
             try:
                 whole = fn(t)
                 record(name, "whole", [whole[f] for f in range(nf)])
-                record(name, "alone", [fn(t[f])[0] for f in range(nf)])
+                record(name, "alone", alone(fn))
                 pr = fn(tp)
                 record(name, "permuted", [pr[inv[f]] for f in range(nf)])
             except Exception as e:  # noqa
@@ -156,7 +180,7 @@ def worker(case_path, out_path):
         for name, fn in (("rmsd", rmsd_of), ("superpose", sup_of)):
             whole = fn(t)
             record(name, "whole", [whole[f] for f in range(nf)])
-            record(name, "alone", [fn(t[f])[0] for f in range(nf)])
+            record(name, "alone", alone(fn))
             pr = fn(tp)
             record(name, "permuted", [pr[inv[f]] for f in range(nf)])
         for par in (True, False):
@@ -166,13 +190,14 @@ def worker(case_path, out_path):
 
 
 def run_case(case):
-    viol, labels = [], ["system:" + case["system"], "cell:" + case["cell"]]
+    viol, labels = [], ["system:" + case["system"], "cell:" + case["cell"]] + (["long:%d" % case["nf"]] if case.get("long") else [])
     here = files.VERIF
     with tempfile.TemporaryDirectory(prefix="vf-c08-") as td:
         cp = os.path.join(td, "case.json")
         json.dump(case, open(cp, "w"))
         procs = []
-        for k, (thr, sched, dyn) in enumerate(SETTINGS):
+        settings_ = SETTINGS[::2] if case.get("long") else SETTINGS
+        for k, (thr, sched, dyn) in enumerate(settings_):
             env = dict(os.environ)
             env.update(OMP_NUM_THREADS=thr, OMP_SCHEDULE=sched, OMP_DYNAMIC=dyn, OPENBLAS_NUM_THREADS="1", MKL_NUM_THREADS="1",
                        OMP_WAIT_POLICY="passive", PYTHONHASHSEED="0")
@@ -185,11 +210,11 @@ def run_case(case):
             so, se = p.communicate(timeout=900)
             if p.returncode != 0 or not os.path.exists(op):
                 if p.returncode is not None and p.returncode < 0:
-                    viol.append(("crash/signal%d" % -p.returncode, "setting %s: %s" % (SETTINGS[k], (se or "")[-300:])))
+                    viol.append(("crash/signal%d" % -p.returncode, "setting %s: %s" % (settings_[k], (se or "")[-300:])))
                     outs.append(None)
                     continue
                 from vlib.runner import HarnessError
-                raise HarnessError("C08 worker failed (setting %s): %s" % (SETTINGS[k], (se or "")[-2000:]))
+                raise HarnessError("C08 worker failed (setting %s): %s" % (settings_[k], (se or "")[-2000:]))
             outs.append(json.load(open(op)))
     good = [o for o in outs if o is not None]
     if not good or viol:
@@ -213,7 +238,7 @@ def run_case(case):
                 if o.get(key) != base[key]:
                     fr = [f for f in range(nf) if o.get(key, [None] * nf)[f] != base[key][f]]
                     viol.append(("%s/depends-on-threads" % name, "%s differs between OMP setting %s and %s (frames %s)" % (
-                        key, SETTINGS[0], SETTINGS[k], fr[:6])))
+                        key, settings_[0], settings_[k], fr[:6])))
                     break
             if viol:
                 break
@@ -226,6 +251,8 @@ def run_case(case):
             if v is None:
                 continue
             for f in range(nf):
+                if v[f] is None:
+                    continue
                 if name in NUMPY_ONLY:
                     a, b = np.array(w[f]), np.array(v[f])
                     if a.shape != b.shape or not np.allclose(a, b, rtol=4 * 2.3e-16 * 4, atol=1e-12):
